@@ -619,7 +619,35 @@ def setup_python_env(repo):
     import warnings
     warnings.filterwarnings("ignore")
     import importlib
-    cuqi = importlib.import_module("cuqi")
+    # arviz (imported by cuqi) rewrites ~/.cache/arviz/daily_warning non-atomically w.r.t. concurrent
+    # processes (all use the same .tmp name): pre-write today's stamp under a lock so it never writes.
+    try:
+        import datetime
+        from platformdirs import user_cache_dir
+        d = user_cache_dir("arviz", "arviz")
+        os.makedirs(d, exist_ok=True)
+        with Lock(".arviz.lock"):
+            stamp = os.path.join(d, "daily_warning")
+            today = datetime.date.today().isoformat()
+            try:
+                cur = open(stamp).read().strip()
+            except OSError:
+                cur = None
+            if cur != today:
+                tmp = stamp + ".verif%d" % os.getpid()
+                with open(tmp, "w") as f:
+                    f.write(today)
+                os.replace(tmp, stamp)
+    except Exception:
+        pass
+    for attempt in range(5):
+        try:
+            cuqi = importlib.import_module("cuqi")
+            break
+        except FileNotFoundError:
+            if attempt == 4:
+                raise
+            time.sleep(0.5 + attempt)
     p = os.path.dirname(os.path.abspath(cuqi.__file__))
     if os.path.dirname(p) != os.path.abspath(repo):
         raise RuntimeError("cuqi imported from %s, expected %s" % (p, repo))
